@@ -20,8 +20,28 @@ META = {
             "by line; direct oracle: Ego's stdout/end == Go's.",
     "note": "trusted: Lean kernel; the Go toolchain as reference; the harness (generator, printers, table serialiser) — "
             "a bug there shows as a Lean-vs-Go disagreement. Modelled, not proved: the Ego compiler/VM (tied by "
-            "correspondence only). In the generator/oracle only, not in the Lean model: nothing; outside both: variadics, "
-            "floats, string indexing, struct copies, slice aliasing, named constants, goroutines. The egoDialect cells for "
+            "correspondence only). In the generator/oracle only, not in the Lean model: struct VALUE semantics (a second, "
+            "source-only generator: two-level structs stored into []Out / map[int]Out by composite literal, element "
+            "assignment, append, map literal / store, and received in range value variables, with every variable and "
+            "element printed after every step; class struct-copy:<site>); outside both: variadics, floats, string "
+            "indexing, slice aliasing, named constants, goroutines. The Lean table holds RESOLVED variables: a shadowing "
+            "declaration (`x := x + 1` inside a loop body or if block) is a fresh variable id printed with the hidden "
+            "variable's name, so name resolution is the generator's (a mistake there shows on the Go leg). A statement in "
+            "which an operation that may fault precedes a call is not generated (Go leaves that order open). "
+            "fixes/C01-1.patch (return from inside a range loop left the callee's entry on the range stack: the caller's "
+            "range loop, when its body shares one scope, then ended early or failed with 'unknown symbol'; class "
+            "return-in-range-called-from-range), C01-2.patch (optimizer >= 1: a loop body sharing one scope kept the "
+            "previous iteration's `x := …` where the body reads the OUTER x first or in the initializer; class "
+            "shadow-decl-in-loop-body), C01-3.patch and C01-4.patch (struct values stored into slice/map elements by "
+            "literal, element assignment, map store, append, and range value variables were aliased, not copied; classes "
+            "struct-copy:*), C01-5.patch (optimizer >= 1 folded `f := func…` into one instruction that stored the literal "
+            "without capturing its scope, so the closure resolved its free variables at the CALL site and saw a variable "
+            "that shadows one of them there; class closure-variable-shadowed-at-call-site), C01-6.patch (<, <=, >, >= "
+            "between a uint above MaxInt64 and a literal beyond the int32 range compared as int64; class "
+            "uint-ordered-against-wide-literal) and C01-7.patch (`return` inside a range loop nested in a range loop left "
+            "a loop marker on the stack: 'function did not return the expected number of values'; class "
+            "return-inside-nested-range-loops) repair these — without them the check reports VIOLATION with the failing "
+            "programs. The egoDialect cells for "
             "operands of DIFFERENT kinds follow C03's model and are not exercised here (Go rejects such programs). "
             "Known-divergent classes are excluded from the theorem by name (Req.known) and reported as KNOWN-FINDING: "
             "mirrored in the model (quirk requests / dialect cells, exercised by 'hot' generated programs): deferred calls "
@@ -81,7 +101,9 @@ def run(ctx):
         "distinct_nontrivial": c.get("distinct_nontrivial", 0),
         "rule": "programs: fixed corpus (hand-written programs + one witness per known class) then typed random programs "
                 "(2-6 functions, closures, defers, loops, switch, slices/maps/structs, every integer width, boundary "
-                "literals); every 5th program carries ONE construct of a known-divergent class; non-trivial = distinct "
+                "literals, shadowing declarations in loop bodies, functions that return from inside a range loop called "
+                "from range loops); every 5th program carries ONE construct of a known-divergent class; then struct-value "
+                "programs (one copy site each, 7 sites in turn; no Lean table); non-trivial = distinct "
                 "program text whose Go run produces more than 16 bytes of output; each program runs under real Go and "
                 "under Ego in 3 type modes x optimizer {0,2}",
         "samples": st.get("samples", [])[:4],
